@@ -18,6 +18,13 @@ func TestSweep(t *testing.T) {
 	rec := kit.NewRecorder(env, "sweep")
 	defer func() { rec.Flush(!t.Failed()) }()
 	maxK := env.Pick(3, 5)
+	// channel counts around 256 and 65536
+	for _, C := range []int{255, 256, 257, 65535, 65536, 65537} {
+		for _, tn := range []string{"int8", "float64"} {
+			Oracle.One(t, env, rec, "sweep", &Case{T: tn, C: C, Kr: 3, Steps: []Step{{S: 1, E: 3}, {S: 0, E: 1}}})
+			Oracle.One(t, env, rec, "sweep", &Case{T: tn, C: C, Kr: 2, Steps: []Step{{S: 2, E: 2}}})
+		}
+	}
 	for _, tn := range names {
 		for C := 1; C <= 3; C++ {
 			for K := 0; K <= maxK; K++ {
